@@ -111,7 +111,11 @@ func (s *c09Sys) Apply(c *mc.Ctx, i int) {
 		if s.pol.timeout == 0 {
 			// timeout 0 (the MQTT byte limiter): what a large request took beyond the period's budget is owed by
 			// the following periods: over any k consecutive periods ending now, the admitted permits stay
-			// below k*limit + the largest request (for k = 1 this is the per-period clause of the statement)
+			// below k*limit + the largest request (for k = 1 this is the per-period clause of the statement).
+			// Why the implementation satisfies it: with timeout 0 a request is admitted only while the debt d (permits
+			// taken and not yet paid back) is < limit, it then adds its size, and every period boundary pays back
+			// min(d, limit).  Over k periods at most (k-1)*limit is paid back inside the window, the debt before the
+			// last admission is < limit and the last request adds at most the largest size.
 			sum := 0
 			for k := 1; q-k+1 >= 0; k++ {
 				sum += s.res[q-k+1]
